@@ -159,6 +159,8 @@ def shards(tier):
         out += [feat(KEYS, "full", 2, j, 96) for j in range(96)]
     out += [feat([k], "full", 3) for k in KEYS]
     out.append({"part": "kwargs", "tier": tier})
+    from mc import harness
+    out = harness.with_hash_seeds(out, tier, lambda sh: sh["part"] == "kwargs" or (sh["part"] == "feat" and sh["n"] <= 1))
     # size ladder: long collections (a chunked writer / reader must not care where a chunk ends)
     out += [{"part": "long", "length": n, "tier": tier} for n in ([17, 1001] if tier == "quick" else [17, 129, 1001, 2049])]
     if tier == "thorough":
